@@ -230,6 +230,9 @@ type Spec struct {
 	// PushGateway: URL of a push gateway the run pushes its metrics to
 	PushGateway string `json:"push_gateway,omitempty"`
 	QuietLogger bool   `json:"quiet_logger,omitempty"` // the slog handler is disabled for every level
+	// mode "builder": the mode's own command-line builder (constant | staged | ramp) and the flags given to it
+	BuilderName string   `json:"builder_name,omitempty"`
+	BuilderArgs []string `json:"builder_args,omitempty"`
 	// F1Logs: "json" | "text": the run logs through f1's own handler of that format (internal/log, what F1_LOG_FORMAT selects)
 	// instead of the capturing handler; the bytes land in the event log as out.f1log
 	Scenario string `json:"scenario,omitempty"`
@@ -294,6 +297,27 @@ func BuildTrigger(spec *Spec, out *ui.Output, hooks *Hooks, r *Run) (*api.Trigge
 	}
 	var trig *api.Trigger
 	switch spec.Mode {
+	case "builder":
+		// the trigger exactly as the command line builds it: the mode's own builder, its flag set parsed from BuilderArgs
+		var b api.Builder
+		switch spec.BuilderName {
+		case "constant":
+			b = constant.Rate()
+		case "staged":
+			b = staged.Rate()
+		case "ramp":
+			b = ramp.Rate()
+		default:
+			return nil, fmt.Errorf("harness: unknown builder %q", spec.BuilderName)
+		}
+		if err := b.Flags.Parse(spec.BuilderArgs); err != nil {
+			return nil, err
+		}
+		t, err := b.New(b.Flags)
+		if err != nil {
+			return nil, err
+		}
+		trig = t
 	case "constant":
 		rates, err := constant.CalculateConstantRate(spec.Jitter, spec.Rate, dist)
 		if err != nil {
